@@ -98,9 +98,11 @@ func (st *programState) runBalancesQuery() error {
 			return AccountBalance{}
 		})
 		for _, queriedCurrency := range queriedCurrencies {
-			amount, ok := balances[accountName][queriedCurrency]
-			if !ok {
-				amount = new(big.Int)
+			// the cache is updated in place while statements run: it must own its
+			// numbers, the ones returned by the store belong to the store
+			amount := new(big.Int)
+			if fetched, ok := balances[accountName][queriedCurrency]; ok {
+				amount.Set(fetched)
 			}
 			cachedCurrenciesForAccount[queriedCurrency] = amount
 		}
